@@ -1,14 +1,16 @@
-(* Parse, part 12: _walk_directories on ANY bytes, ANY root pointer -- no well-formedness at all (C15).
-   [rd] is any reader of the medium that hands out non-empty data only at the extents of a finite list U and
-   never more than M bytes at once (ParseTotalInst.v: the whole-file reader and the Master.image reader).
-     ps_scan_nofuel / ps_scan_bound   the record loop of one extent terminates (every round consumes at
-                                      least one byte of the data read) and creates at most one record per byte
-     ps_walk_total                    the walk terminates: each extent is entered at most once ('Directory
-                                      loop'), and an entered extent queues at most M further directories;
-                                      fuel length U * (M + 1) + 2 is never exhausted
-     ps_walk_bounded                  records and inodes created: at most length U * M
+(* Parse, part 12: _walk_directories (as repaired by commit 863c802: directories may not share blocks) on ANY
+   bytes, ANY root pointer -- no well-formedness at all (C15).
+   [rd] is any reader of the medium such that the data handed out for a directory is covered by the blocks of its
+   dir_block_range that lie in a finite list U, w bytes per block (ParseTotalInst.v: the whole-file reader with
+   w = 2048, the Master.image reader).
+     ps_parse_dr_len / ps_scan_nofuel / ps_scan_bound33
+                          every record that parses takes at least 33 bytes of the data read; the record loop of
+                          one extent terminates and creates at most (bytes read)/33 records
+     ps_walk_total        the walk terminates: the ranges of the walked directories are disjoint, so the data
+                          read in total is at most w * length U; fuel w * length U / 33 + 3 is never exhausted
+     ps_walk_bounded      33 * records (and inodes) created <= w * length U
    The failure codes are classified in ParseTotalInst.v (parse_only_documented_errors). *)
-From Coq Require Import ZArith List Bool Lia ZifyBool.
+From Coq Require Import ZArith List Bool Lia ZifyBool FinFun.
 From PV.Base Require Import Prim ListX.
 From PV.Gen Require Import GenConst GenFun.
 From PV.Model Require Import Codec Pack Master Parse.
@@ -16,8 +18,11 @@ From PV.Proofs Require Import MasterPack MasterChecker ParseShare ParseShareWalk
 Import ListNotations.
 Local Open Scope Z_scope.
 
-Definition ps_rd_bounded (rd : Z -> Z -> option (list Z)) (U : list Z) (M : nat) : Prop :=
-  forall ext len data, rd ext len = Some data -> data <> [] -> In ext U /\ (length data <= M)%nat.
+Definition ps_inU (U : list Z) (l : list Z) : list Z := filter (fun b => ps_mem b U) l.
+
+Definition ps_rd_ok (rd : Z -> Z -> option (list Z)) (isz : Z) (U : list Z) (w : nat) : Prop :=
+  forall ext len data, rd ext len = Some data -> data <> [] ->
+  (length data <= w * length (ps_inU U (ps_range isz ext len)))%nat.
 
 (* ---- one record ------------------------------------------------------------------------------------------ *)
 
@@ -56,14 +61,31 @@ Proof.
     rewrite ?app_length; cbn [length]; lia.
 Qed.
 
+Lemma ps_split_widths_len ws : forall s fs rest, split_widths ws s = Some (fs, rest) ->
+  (list_sum ws <= length s)%nat.
+Proof.
+  induction ws as [|w ws IH]; intros s fs rest H; [cbn; lia|]. cbn [split_widths] in H.
+  destruct (length s <? w)%nat eqn:E; [discriminate|]. apply Nat.ltb_ge in E.
+  destruct (split_widths ws (skipn w s)) as [[fs' r']|] eqn:E2; [|discriminate].
+  apply IH in E2. rewrite skipn_length in E2. change (list_sum (w :: ws)) with (w + list_sum ws)%nat. lia.
+Qed.
+
+Lemma ps_parse_dr_len b r : parse_dr b = Some r -> (33 <= length b)%nat.
+Proof.
+  unfold parse_dr. destruct (255 <? zlen b); [discriminate|].
+  destruct (split_widths (widths fmt_dr_widths) (firstn 33 b)) as [[fs rest]|] eqn:E; [|discriminate].
+  intros _. apply ps_split_widths_len in E. rewrite firstn_length in E.
+  change (list_sum (widths fmt_dr_widths)) with 33%nat in E. lia.
+Qed.
+
 (* what one record adds *)
 Lemma ps_record_sizes ptr isz st l b st' l' : ps_record ptr isz (st, l) b = POk (st', l') ->
   ps_nrec st' = S (ps_nrec st) /\ (length (s_queue st') <= S (length (s_queue st)))%nat /\
   s_seen st' = s_seen st /\ (length (s_inodes st') <= S (length (s_inodes st)))%nat /\
-  length (concat (s_dirs st')) = length (concat (s_dirs st)).
+  length (concat (s_dirs st')) = length (concat (s_dirs st)) /\ (33 <= length b)%nat.
 Proof.
   unfold ps_record.
-  destruct (parse_dr b) as [r|]; [|discriminate].
+  destruct (parse_dr b) as [r|] eqn:Ep; [|discriminate]. apply ps_parse_dr_len in Ep.
   destruct (ps_outside (sysuse r) (znth 32 b)); [discriminate|].
   destruct (ps_is_dir r) eqn:Hd.
   - cbv beta iota zeta.
@@ -130,10 +152,10 @@ Section ScanAny.
   Qed.
 
   Variable m : S -> nat.
-  Hypothesis step_one : forall s b s', step s b = POk s' -> (m s' <= m s + 1)%nat.
+  Hypothesis step_one : forall s b s', step s b = POk s' -> (33 <= length b)%nat /\ (m s' <= m s + 1)%nat.
 
-  Lemma ps_scan_bound : forall fuel data off len s s',
-    ps_scan step fuel data off len s = POk s' -> (m s' <= m s + length data)%nat.
+  Lemma ps_scan_bound33 : forall fuel data off len s s',
+    ps_scan step fuel data off len s = POk s' -> (33 * m s' <= 33 * m s + length data)%nat.
   Proof.
     induction fuel as [|f IH]; intros data off len s s'; [discriminate|]. cbn [ps_scan].
     destruct (off <? len); [|intros H; injection H as <-; lia].
@@ -142,84 +164,114 @@ Section ScanAny.
     - match goal with |- (if ?c then _ else _) = _ -> _ => destruct c; [|discriminate] end.
       intros H. apply IH in H. rewrite skipn_length in H. lia.
     - destruct (step s (firstn (Z.to_nat x) (x :: data'))) as [s1| | |] eqn:E; try discriminate.
-      intros H. apply IH in H. rewrite skipn_length in H. pose proof (step_one _ _ _ E).
-      destruct (Z.to_nat x) as [|k] eqn:Ek.
-      + exfalso. cbn [firstn] in E. exact (step_empty _ _ E).
-      + cbn [length] in *. lia.
+      intros H. apply IH in H. rewrite skipn_length in H. destruct (step_one _ _ _ E) as [H33 H1].
+      rewrite firstn_length in H33. lia.
   Qed.
 End ScanAny.
 
 (* ---- the walk ------------------------------------------------------------------------------------------------ *)
 
+Lemma ps_mem_in x l : ps_mem x l = true <-> In x l.
+Proof.
+  unfold ps_mem. rewrite existsb_exists. split.
+  - intros (e & He & E). apply Z.eqb_eq in E. subst e. exact He.
+  - intros H. exists x. split; [exact H|apply Z.eqb_refl].
+Qed.
+
+Lemma ps_range_nodup isz ext len : NoDup (ps_range isz ext len).
+Proof. unfold ps_range. apply FinFun.Injective_map_NoDup; [intros a b H; lia|apply seq_NoDup]. Qed.
+
+Lemma ps_nodup_app {A} (a b : list A) : NoDup a -> NoDup b -> (forall x, In x a -> ~ In x b) -> NoDup (a ++ b).
+Proof.
+  induction a as [|x a IH]; intros Ha Hb Hd; [exact Hb|]. inversion Ha as [|? ? Hx Ha']; subst. cbn [app]. constructor.
+  - intros Hin. apply in_app_or in Hin. destruct Hin as [Hin|Hin]; [exact (Hx Hin)|]. exact (Hd x (or_introl eq_refl) Hin).
+  - apply IH; [exact Ha'|exact Hb|]. intros y Hy. apply Hd. right. exact Hy.
+Qed.
+
+Lemma ps_enter_true isz seen ext len sn : ps_enter true isz seen ext len = inr sn ->
+  sn = ps_range isz ext len ++ seen /\ (NoDup seen -> NoDup sn).
+Proof.
+  unfold ps_enter. cbv zeta. destruct (existsb _ (ps_range isz ext len)) eqn:E; [discriminate|].
+  intros H. injection H as <-. split; [reflexivity|]. intros Hnd.
+  apply ps_nodup_app; [apply ps_range_nodup|exact Hnd|].
+  intros b Hb Hs. assert (existsb (fun b => ps_mem b seen) (ps_range isz ext len) = true); [|congruence].
+  apply existsb_exists. exists b. split; [exact Hb|apply ps_mem_in; exact Hs].
+Qed.
+
 Section WalkAny.
   Variable rd : Z -> Z -> option (list Z).
-  Variable U : list Z.
-  Variable M : nat.
-  Hypothesis Hrd : ps_rd_bounded rd U M.
-  Variable ptr : list Z.
   Variable isz : Z.
+  Variable U : list Z.
+  Variable w : nat.
+  Hypothesis Hrd : ps_rd_ok rd isz U w.
+  Variable ptr : list Z.
 
-  (* the directory extents entered so far that carried data *)
-  Definition ps_seenU (st : pstate) : list Z := filter (fun e => ps_mem e U) (s_seen st).
+  (* the blocks of the directories entered so far that count *)
+  Definition ps_seenU (st : pstate) : list Z := ps_inU U (s_seen st).
 
   Lemma ps_seenU_bound st : NoDup (s_seen st) -> (length (ps_seenU st) <= length U)%nat.
   Proof.
     intros Hnd. apply NoDup_incl_length; [apply NoDup_filter; exact Hnd|].
-    intros e He. apply filter_In in He. destruct He as [_ He]. unfold ps_mem in He.
-    apply existsb_exists in He. destruct He as (u & Hu & E). apply Z.eqb_eq in E. subst u. exact Hu.
+    intros e He. apply filter_In in He. destruct He as [_ He]. apply ps_mem_in in He. exact He.
   Qed.
 
   Definition ps_phi (st : pstate) : nat :=
-    (length (s_queue st) + (length U - length (ps_seenU st)) * (M + 1))%nat.
-
-  Lemma ps_mem_in x l : ps_mem x l = true <-> In x l.
-  Proof.
-    unfold ps_mem. rewrite existsb_exists. split.
-    - intros (e & He & E). apply Z.eqb_eq in E. subst e. exact He.
-    - intros H. exists x. split; [exact H|apply Z.eqb_refl].
-  Qed.
+    (33 * length (s_queue st) + w * (length U - length (ps_seenU st)))%nat.
 
   (* one directory: what the scan of its extent leaves *)
-  Lemma ps_scan_dir_sizes st q ext len data st' l' :
-    ps_scan (ps_record ptr isz) (S (length data)) data 0 len (ps_begin_dir st q ext, None) = POk (st', l') ->
+  Lemma ps_scan_dir_sizes st q sn len data st' l' :
+    ps_scan (ps_record ptr isz) (S (length data)) data 0 len (ps_begin_dir st q sn, None) = POk (st', l') ->
     s_cur st = [] ->
-    (length (s_queue st') <= length q + length data)%nat /\ s_seen st' = ext :: s_seen st /\
-    (ps_nrec st' <= ps_nrec st + length data)%nat /\
-    (length (s_inodes st') <= length (s_inodes st) + length data)%nat.
+    (33 * length (s_queue st') <= 33 * length q + length data)%nat /\ s_seen st' = sn /\
+    (33 * ps_nrec st' <= 33 * ps_nrec st + length data)%nat /\
+    (33 * length (s_inodes st') <= 33 * length (s_inodes st) + length data)%nat.
   Proof.
     intros Hs Hc.
     assert (He : forall s s', ps_record ptr isz s [] <> POk s') by (intros s s'; rewrite ps_record_empty; discriminate).
     split; [|split; [|split]].
-    - apply (ps_scan_bound (ps_record ptr isz) He (fun s => length (s_queue (fst s)))) in Hs; [exact Hs|].
-      intros [a la] b [a' la'] H. cbn [fst]. destruct (ps_record_sizes _ _ _ _ _ _ _ H) as (_ & Q & _). lia.
-    - apply (ps_scan_inv (ps_record ptr isz) (fun s => s_seen (fst s) = ext :: s_seen st)) in Hs; [exact Hs| |reflexivity].
+    - apply (ps_scan_bound33 (ps_record ptr isz) He (fun s => length (s_queue (fst s)))) in Hs; [exact Hs|].
+      intros [a la] b [a' la'] H. cbn [fst]. destruct (ps_record_sizes _ _ _ _ _ _ _ H) as (_ & Q & _ & _ & _ & L). lia.
+    - apply (ps_scan_inv (ps_record ptr isz) (fun s => s_seen (fst s) = sn)) in Hs; [exact Hs| |reflexivity].
       intros [a la] b [a' la'] Hp H. cbn [fst] in *. destruct (ps_record_sizes _ _ _ _ _ _ _ H) as (_ & _ & Sn & _). congruence.
-    - apply (ps_scan_bound (ps_record ptr isz) He (fun s => ps_nrec (fst s))) in Hs.
+    - apply (ps_scan_bound33 (ps_record ptr isz) He (fun s => ps_nrec (fst s))) in Hs.
       + cbn [fst] in Hs. unfold ps_nrec in *. cbn [ps_begin_dir s_dirs s_cur length] in Hs. rewrite Hc. cbn [length]. lia.
-      + intros [a la] b [a' la'] H. cbn [fst]. destruct (ps_record_sizes _ _ _ _ _ _ _ H) as (N & _). lia.
-    - apply (ps_scan_bound (ps_record ptr isz) He (fun s => length (s_inodes (fst s)))) in Hs; [exact Hs|].
-      intros [a la] b [a' la'] H. cbn [fst]. destruct (ps_record_sizes _ _ _ _ _ _ _ H) as (_ & _ & _ & I & _). lia.
+      + intros [a la] b [a' la'] H. cbn [fst]. destruct (ps_record_sizes _ _ _ _ _ _ _ H) as (N & _ & _ & _ & _ & L). lia.
+    - apply (ps_scan_bound33 (ps_record ptr isz) He (fun s => length (s_inodes (fst s)))) in Hs; [exact Hs|].
+      intros [a la] b [a' la'] H. cbn [fst]. destruct (ps_record_sizes _ _ _ _ _ _ _ H) as (_ & _ & _ & I & _ & L). lia.
   Qed.
 
-  Theorem ps_walk_total : forall fuel st, NoDup (s_seen st) -> s_cur st = [] -> (ps_phi st < fuel)%nat ->
-    ps_walk fuel rd ptr isz st <> PFuel.
+  (* the blocks that count, after a directory was entered *)
+  Lemma ps_seenU_enter st ext len data sn : ps_enter true isz (s_seen st) ext len = inr sn ->
+    rd ext len = Some data ->
+    (length (ps_inU U sn) >= length (ps_seenU st))%nat /\
+    (length data <= w * (length (ps_inU U sn) - length (ps_seenU st)))%nat.
+  Proof.
+    intros He Hr. destruct (ps_enter_true _ _ _ _ _ He) as [-> _]. unfold ps_seenU, ps_inU.
+    rewrite filter_app, app_length. split; [lia|].
+    destruct data as [|x d]; [cbn [length]; lia|].
+    pose proof (Hrd ext len (x :: d) Hr ltac:(discriminate)) as H. unfold ps_inU in H.
+    replace (length (filter (fun b => ps_mem b U) (ps_range isz ext len)) + length (filter (fun b => ps_mem b U) (s_seen st))
+             - length (filter (fun b => ps_mem b U) (s_seen st)))%nat
+      with (length (filter (fun b => ps_mem b U) (ps_range isz ext len))) by lia.
+    exact H.
+  Qed.
+
+  Theorem ps_walk_total : forall fuel st, NoDup (s_seen st) -> s_cur st = [] -> (ps_phi st < 33 * fuel)%nat ->
+    ps_walk true fuel rd ptr isz st <> PFuel.
   Proof.
     induction fuel as [|f IH]; intros st Hnd Hc Hphi; [lia|]. cbn [ps_walk].
     destruct (s_queue st) as [|[ext len] q] eqn:Eq; [discriminate|].
-    destruct (ps_mem ext (s_seen st)) eqn:Em; [discriminate|].
+    destruct (ps_enter true isz (s_seen st) ext len) as [e|sn] eqn:Ee; [discriminate|].
     destruct (rd ext len) as [data|] eqn:Er; [|discriminate].
     destruct (ps_scan _ _ data 0 len _) as [[st' l']| | |] eqn:Es; try discriminate.
-    - destruct (ps_scan_dir_sizes st q ext len data st' l' Es Hc) as (Hq & Hs & _).
-      assert (Hnin : ~ In ext (s_seen st)) by (rewrite <- ps_mem_in; congruence).
-      assert (Hnd' : NoDup (s_seen (ps_end_dir st'))) by (cbn [ps_end_dir s_seen]; rewrite Hs; constructor; assumption).
+    - destruct (ps_scan_dir_sizes st q sn len data st' l' Es Hc) as (Hq & Hs & _).
+      destruct (ps_enter_true _ _ _ _ _ Ee) as [_ Hnd1]. specialize (Hnd1 Hnd).
+      assert (Hnd' : NoDup (s_seen (ps_end_dir st'))) by (cbn [ps_end_dir s_seen]; rewrite Hs; exact Hnd1).
       apply IH; [exact Hnd'|reflexivity|].
       pose proof (ps_seenU_bound _ Hnd') as Hb.
+      destruct (ps_seenU_enter st ext len data sn Ee Er) as [G1 G2].
       unfold ps_phi in *. unfold ps_seenU in *. cbn [ps_end_dir s_queue s_seen] in *. rewrite Hs in *. rewrite Eq in Hphi.
-      cbn [filter length] in *.
-      destruct data as [|x data'].
-      + cbn [length] in Hq. destruct (ps_mem ext U); cbn [length] in *; nia.
-      + destruct (Hrd ext len (x :: data') Er ltac:(discriminate)) as [HinU HM].
-        apply ps_mem_in in HinU. rewrite HinU in *. cbn [length] in *. nia.
+      cbn [length] in Hphi. nia.
     - exfalso. revert Es. apply ps_scan_nofuel; [|apply ps_record_nofuel|lia].
       intros s s'. rewrite ps_record_empty. discriminate.
   Qed.
@@ -228,59 +280,54 @@ Section WalkAny.
   Record ps_szinv (st : pstate) : Prop := {
     z_nodup : NoDup (s_seen st);
     z_cur : s_cur st = [];
-    z_recs : (ps_nrec st <= length (ps_seenU st) * M)%nat;
-    z_inodes : (length (s_inodes st) <= length (ps_seenU st) * M)%nat }.
+    z_recs : (33 * ps_nrec st <= w * length (ps_seenU st))%nat;
+    z_inodes : (33 * length (s_inodes st) <= w * length (ps_seenU st))%nat }.
 
-  Theorem ps_walk_bounded : forall fuel st st', ps_szinv st -> ps_walk fuel rd ptr isz st = POk st' ->
+  Theorem ps_walk_bounded : forall fuel st st', ps_szinv st -> ps_walk true fuel rd ptr isz st = POk st' ->
     ps_szinv st'.
   Proof.
     induction fuel as [|f IH]; intros st st' Z; [discriminate|]. cbn [ps_walk].
     destruct (s_queue st) as [|[ext len] q] eqn:Eq; [intros H; injection H as <-; exact Z|].
-    destruct (ps_mem ext (s_seen st)) eqn:Em; [discriminate|].
+    destruct (ps_enter true isz (s_seen st) ext len) as [e|sn] eqn:Ee; [discriminate|].
     destruct (rd ext len) as [data|] eqn:Er; [|discriminate].
     destruct (ps_scan _ _ data 0 len _) as [[st1 l1]| | |] eqn:Es; try discriminate.
     apply IH. destruct Z as [Hnd Hc Hr Hi].
-    destruct (ps_scan_dir_sizes st q ext len data st1 l1 Es Hc) as (_ & Hs & Hn & Hino).
-    assert (Hnin : ~ In ext (s_seen st)) by (rewrite <- ps_mem_in; congruence).
+    destruct (ps_scan_dir_sizes st q sn len data st1 l1 Es Hc) as (_ & Hs & Hn & Hino).
+    destruct (ps_enter_true _ _ _ _ _ Ee) as [_ Hnd1]. specialize (Hnd1 Hnd).
+    destruct (ps_seenU_enter st ext len data sn Ee Er) as [G1 G2].
     constructor.
-    - cbn [ps_end_dir s_seen]. rewrite Hs. constructor; assumption.
+    - cbn [ps_end_dir s_seen]. rewrite Hs. exact Hnd1.
     - reflexivity.
     - unfold ps_nrec, ps_seenU in *. cbn [ps_end_dir s_dirs s_cur s_seen length] in *. rewrite Hs.
-      rewrite concat_app, app_length. cbn [concat filter]. rewrite app_nil_r.
-      destruct data as [|x data'].
-      + cbn [length] in *. destruct (ps_mem ext U); cbn [length]; nia.
-      + destruct (Hrd ext len (x :: data') Er ltac:(discriminate)) as [HinU HM].
-        apply ps_mem_in in HinU. rewrite HinU. cbn [length] in *. nia.
-    - unfold ps_seenU in *. cbn [ps_end_dir s_inodes s_seen] in *. rewrite Hs. cbn [filter].
-      destruct data as [|x data'].
-      + cbn [length] in *. destruct (ps_mem ext U); cbn [length]; nia.
-      + destruct (Hrd ext len (x :: data') Er ltac:(discriminate)) as [HinU HM].
-        apply ps_mem_in in HinU. rewrite HinU. cbn [length] in *. nia.
+      rewrite concat_app, app_length. cbn [concat]. rewrite app_nil_r. nia.
+    - unfold ps_seenU in *. cbn [ps_end_dir s_inodes s_seen] in *. rewrite Hs. nia.
   Qed.
 End WalkAny.
 
 (* ---- for ps_parse ---------------------------------------------------------------------------------------------- *)
 
-Definition ps_fuel_any (U : list Z) (M : nat) : nat := (length U * (M + 1) + 2)%nat.
+Definition ps_fuel_any (U : list Z) (w : nat) : nat := (w * length U / 33 + 3)%nat.
 
-Theorem ps_parse_total rd U M ptr isz re rl : ps_rd_bounded rd U M ->
-  ps_parse (ps_fuel_any U M) rd ptr isz re rl <> PFuel.
+Theorem ps_parse_total rd isz U w ptr re rl : ps_rd_ok rd isz U w ->
+  ps_parse (ps_fuel_any U w) rd ptr isz re rl <> PFuel.
 Proof.
-  intros Hrd. unfold ps_parse. destruct ptr as [|e0 pt]; [discriminate|].
-  destruct (ps_walk _ rd (e0 :: pt) isz (ps_init re rl)) eqn:E; try discriminate.
-  exfalso. revert E. apply (ps_walk_total rd U M Hrd); [constructor|reflexivity|].
-  unfold ps_phi, ps_seenU, ps_fuel_any. cbn [ps_init s_queue s_seen filter length]. lia.
+  intros Hrd. unfold ps_parse, ps_parse_gen. destruct ptr as [|e0 pt]; [discriminate|].
+  destruct (ps_walk true _ rd (e0 :: pt) isz (ps_init re rl)) eqn:E; try discriminate.
+  exfalso. revert E. apply (ps_walk_total rd isz U w Hrd); [constructor|reflexivity|].
+  unfold ps_phi, ps_seenU, ps_inU, ps_fuel_any. cbn [ps_init s_queue s_seen filter length].
+  pose proof (Nat.div_mod (w * length U) 33 ltac:(lia)) as D.
+  pose proof (Nat.mod_upper_bound (w * length U) 33 ltac:(lia)). lia.
 Qed.
 
-Theorem ps_parse_bounded rd U M fuel ptr isz re rl g : ps_rd_bounded rd U M ->
+Theorem ps_parse_bounded rd isz U w fuel ptr re rl g : ps_rd_ok rd isz U w ->
   ps_parse fuel rd ptr isz re rl = POk g ->
-  (length (ps_all_recs g) <= length U * M)%nat /\ (length (g_inodes g) <= length U * M)%nat.
+  (33 * length (ps_all_recs g) <= w * length U)%nat /\ (33 * length (g_inodes g) <= w * length U)%nat.
 Proof.
-  intros Hrd. unfold ps_parse. destruct ptr as [|e0 pt]; [discriminate|].
-  destruct (ps_walk fuel rd (e0 :: pt) isz (ps_init re rl)) as [st| | |] eqn:E; try discriminate.
+  intros Hrd. unfold ps_parse, ps_parse_gen. destruct ptr as [|e0 pt]; [discriminate|].
+  destruct (ps_walk true fuel rd (e0 :: pt) isz (ps_init re rl)) as [st| | |] eqn:E; try discriminate.
   intros H. injection H as <-.
-  assert (Z0 : ps_szinv U M (ps_init re rl)) by (constructor; cbn; try constructor; lia).
-  destruct (ps_walk_bounded rd U M Hrd (e0 :: pt) isz fuel _ st Z0 E) as [Hnd Hc Hr Hi].
+  assert (Z0 : ps_szinv U w (ps_init re rl)) by (constructor; cbn; try constructor; lia).
+  destruct (ps_walk_bounded rd isz U w Hrd (e0 :: pt) fuel _ st Z0 E) as [Hnd Hc Hr Hi].
   pose proof (ps_seenU_bound U st Hnd) as Hb.
   unfold ps_all_recs, ps_nrec in *. cbn [ps_graph g_dirs g_inodes]. rewrite Hc in Hr. cbn [length] in Hr. nia.
 Qed.
